@@ -142,7 +142,11 @@ def roto_ty(ty):
         if ty[0] == "list":
             return "List[%s]" % roto_ty(ty[1])
         if ty[0] == "named":
+            if len(ty) > 2 and ty[2]:
+                return "%s[%s]" % (ty[1], ", ".join(roto_ty(x) for x in ty[2]))
             return ty[1]
+        if ty[0] == "tv":
+            return ["A", "B"][ty[1]]
     return {"str": "String", "unit": "()", "Tr": "Tr"}.get(ty, ty)
 
 
@@ -300,13 +304,14 @@ def print_program(prog):
     p = Printer()
     out = []
     for t in prog.get("types", []):
+        gen = "[%s]" % ", ".join(t["ps"]) if t.get("ps") else ""
         if t["k"] == "record":
-            out.append("record %s { %s }" % (t["n"], ", ".join("%s: %s" % (f, roto_ty(ft)) for f, ft in t["fs"])))
+            out.append("record %s%s { %s }" % (t["n"], gen, ", ".join("%s: %s" % (f, roto_ty(ft)) for f, ft in t["fs"])))
         else:
             vs = []
             for v, ts in t["vs"]:
                 vs.append(v + ("(%s)" % ", ".join(roto_ty(x) for x in ts) if ts else ""))
-            out.append("enum %s { %s }" % (t["n"], ", ".join(vs)))
+            out.append("enum %s%s { %s }" % (t["n"], gen, ", ".join(vs)))
     for name, f in prog["fns"].items():
         params = ", ".join("%s: %s" % (n, roto_ty(t)) for n, t in zip(f["ps"], f["pts"]))
         if f.get("kind") == "filtermap":
